@@ -102,7 +102,10 @@ def analyse(prop, root):
     known = report.load_known()
     known_list = [e for e in known.get("known", []) if e.get("property") == prop]
     new = [f for f in ctx.findings if not any(report.match_known(f, e) for e in known_list)]
-    return (1 if new else 0), [f.as_dict() for f in new]
+    out = [f.as_dict() for f in new]
+    if ctx.analysis_errors and not new:
+        return 2, [{"rule": "ANALYSIS-ERROR", "message": "; ".join(ctx.analysis_errors), "function": "", "stmt": "", "module": ""}]
+    return (1 if new else 0), out
 
 
 def run_variant(variant, src_root="/repo"):
